@@ -194,7 +194,7 @@ func (l *rec) finish(g *Gate, contents map[string]bool) {
 	// the final snapshot is one more read that happens after everything
 	all := append([]*call{}, l.calls...)
 	all = append(all, &call{thread: "end", kind: "snapshot", snap: content(fsnap), call: l.tick(), ret: l.tick()})
-	ok, order := linearizable(all, initial, book)
+	ok, _ := linearizable(all, initial, book)
 	if !ok {
 		var ds []string
 		for _, c := range all {
